@@ -23,11 +23,10 @@ def takeName : Bytes → Bytes × Bytes
 def takeQName (inp : Bytes) : Option ((Option Bytes × Bytes) × Bytes) :=
   let (a, r) := takeName inp
   if a.isEmpty then none else
-  match r with
-  | 58 :: r' =>
-    let (b, r'') := takeName r'
+  if r.head? = some 58 then
+    let (b, r'') := takeName r.tail
     if b.isEmpty then none else some ((some a, b), r'')
-  | _ => some ((none, a), r)
+  else some ((none, a), r)
 
 def isSpace (b : UInt8) : Bool := b == 32 || b == 9 || b == 10 || b == 13
 
@@ -65,23 +64,23 @@ structure RawAttr where
 def parseAttrs : (fuel : Nat) → Bytes → Option (List RawAttr × Bool × Bytes)
   | 0, _ => none
   | fuel + 1, inp =>
-    match skipSpaces inp with
-    | 62 :: r => some ([], false, r)
-    | 47 :: 62 :: r => some ([], true, r)
-    | inp' =>
-      if inp'.length == inp.length then none else       -- attributes must be separated from what precedes by white space
+    let inp' := skipSpaces inp
+    if inp'.head? = some 62 then some ([], false, inp'.tail)
+    else if inp'.head? = some 47 ∧ inp'.tail.head? = some 62 then some ([], true, inp'.tail.tail)
+    else if inp'.length = inp.length then none       -- attributes must be separated from what precedes by white space
+    else
       match takeQName inp' with
       | none => none
       | some ((p, n), r) =>
-        match skipSpaces r with
-        | 61 :: r1 =>
-          match skipSpaces r1 with
-          | 34 :: r2 =>
-            match readUntil true (r2.length + 1) r2 with
-            | some (v, 34 :: r3) => (parseAttrs fuel r3).map fun (as, sc, t) => ({ pfx := p, name := n, value := v } :: as, sc, t)
-            | _ => none
-          | _ => none
-        | _ => none
+        let r1 := skipSpaces r
+        if r1.head? ≠ some 61 then none else
+        let r2 := skipSpaces r1.tail
+        if r2.head? ≠ some 34 then none else
+        match readUntil true (r2.tail.length + 1) r2.tail with
+        | none => none
+        | some (v, r3) =>
+          if r3.head? ≠ some 34 then none else
+          (parseAttrs fuel r3.tail).map fun (as, sc, t) => ({ pfx := p, name := n, value := v } :: as, sc, t)
 
 /-- in-scope namespace bindings, innermost first; prefix `none` = default namespace -/
 abbrev Env := List (Option Bytes × Bytes)
@@ -175,18 +174,18 @@ def parseElem (env : Env) : (fuel : Nat) → Bytes → Option (XElem × Bytes)
 def parseContent (env : Env) : (fuel : Nat) → Bytes → Option (Bytes × List XElem × Bytes)
   | 0, _ => none
   | fuel + 1, inp =>
-    match inp with
-    | [] => some ([], [], [])
-    | 60 :: 47 :: r => some ([], [], 60 :: 47 :: r)
-    | 60 :: r =>
-      match parseElem env fuel (60 :: r) with
-      | none => none
-      | some (e, r') => (parseContent env fuel r').map fun (t, ks, rest) => (t, e :: ks, rest)
-    | c :: r =>
-      match readUntil false ((c :: r).length + 1) (c :: r) with
+    if inp.isEmpty then some ([], [], [])
+    else if inp.head? = some 60 then
+      if inp.tail.head? = some 47 then some ([], [], inp)
+      else
+        match parseElem env fuel inp with
+        | none => none
+        | some (e, r') => (parseContent env fuel r').map fun (t, ks, rest) => (t, e :: ks, rest)
+    else
+      match readUntil false (inp.length + 1) inp with
       | none => none
       | some (t, r') =>
-        if r'.length == (c :: r).length then none else
+        if r'.length = inp.length then none else
         (parseContent env fuel r').map fun (t', ks, rest) => (t ++ t', ks, rest)
 end
 
